@@ -2,7 +2,7 @@
 PROP = "C14"
 READY = True
 COQ_PROPS = ['Properties_C14']
-RULE = ('operation scripts over several count_min_sketch<int64_t> registers (every fifth case: count_min_sketch<int32_t>): configurations num_hashes 1..8 (and 255 once), '
+RULE = ('operation scripts over several count_min_sketch<int64_t> registers (every fifth case: count_min_sketch<int32_t>, every fifth: count_min_sketch<double> with dyadic fractional weights): configurations num_hashes 1..8 (and 255 once), '
         'num_buckets 3..64 incl. non-powers of two, refused configurations, integer and string items from a small universe '
         '(so that collisions and repeats are frequent), non-negative weights (a separate stream of cases mixes in negative '
         'weights), serialize/deserialize points (bytes and stream) after which the restored sketch is used further, merges of compatible/incompatible/self operands (every sixth case: operands agreeing on some but not all of num_hashes, num_buckets, seed, cell count — same cell count in another shape, transposed shape, other seed), queries for tracked and never-seen items, full cell dumps; '
@@ -33,8 +33,10 @@ def gen(rng, tier):
         seed = rng.choice([9001, 0, 1, 12345678901234567])
         neg = (ci % 7 == 0)
         nreg = rng.choice([1, 2, 3])
-        wt = 1 if ci % 5 == 2 else 0      # weight type of the case: 0 = count_min_sketch<int64_t>, 1 = <int32_t> (small weights)
-        if wt: tags.add('int32-weights')
+        # weight type of the case: 0 = count_min_sketch<int64_t>, 1 = <int32_t> (small weights), 2 = <double> (the script's integer weights count quarters)
+        wt = 1 if ci % 5 == 2 else (2 if ci % 5 == 4 else 0)
+        if wt == 1: tags.add('int32-weights')
+        if wt == 2: tags.add('double-weights')
         shapes = None
         if ci % 6 == 5:
             # aimed at the case split of cm_merge_refused: operands that agree on some of (num_hashes, num_buckets, seed,
